@@ -360,3 +360,206 @@ Proof.
   - rewrite concat_length_wf by exact Hwf. change (length salt) with 8%nat. lia.
   - apply concat_w32, Hwf.
 Qed.
+
+(* ------------------------------------------------------------------ bit inclusion on the specification side *)
+
+(** every bit of a is a bit of b *)
+Definition subw (a b : N) : Prop := N.land a b = a.
+Definition sub (s s' : sbbf) : Prop := Forall2 (Forall2 subw) s s'.
+
+Lemma subw_refl a : subw a a.
+Proof. apply N.land_diag. Qed.
+
+Lemma subw_trans a b c : subw a b -> subw b c -> subw a c.
+Proof. unfold subw. intros H1 H2. rewrite <- H1 at 1. rewrite <- N.land_assoc, H2. exact H1. Qed.
+
+Lemma subw_lor_l a m : subw a (N.lor a m).
+Proof.
+  unfold subw. apply N.bits_inj_iff; intro n. rewrite N.land_spec, N.lor_spec.
+  destruct (N.testbit a n), (N.testbit m n); reflexivity.
+Qed.
+
+Lemma subw_lor_r a m : subw m (N.lor a m).
+Proof.
+  unfold subw. apply N.bits_inj_iff; intro n. rewrite N.land_spec, N.lor_spec.
+  destruct (N.testbit a n), (N.testbit m n); reflexivity.
+Qed.
+
+Lemma word_has_subw w m : word_has w m = true <-> subw m w.
+Proof. unfold word_has, subw. rewrite N.eqb_eq, N.land_comm. tauto. Qed.
+
+Lemma word_has_mono w w' m : subw w w' -> word_has w m = true -> word_has w' m = true.
+Proof. rewrite !word_has_subw. intros H1 H2. eapply subw_trans; eassumption. Qed.
+
+Lemma Forall2_refl {A} (P : A -> A -> Prop) l : (forall x, P x x) -> Forall2 P l l.
+Proof. intros H. induction l; constructor; auto. Qed.
+
+Lemma Forall2_trans {A} (P : A -> A -> Prop) : (forall x y z, P x y -> P y z -> P x z) ->
+  forall a b c, Forall2 P a b -> Forall2 P b c -> Forall2 P a c.
+Proof.
+  intros HT a b c H1. revert c. induction H1 as [|x y a b Hxy Hab IH]; intros c H2; inversion H2; subst; constructor.
+  - eapply HT; eassumption.
+  - apply IH. assumption.
+Qed.
+
+Lemma Forall2_nth {A B} (P : A -> B -> Prop) l l' i a : Forall2 P l l' -> nth_error l i = Some a ->
+  exists b, nth_error l' i = Some b /\ P a b.
+Proof.
+  intros H. revert i. induction H as [|x y l l' Hxy Hl IH]; intros [|i] E; cbn in *; try discriminate.
+  - inversion E; subst. eauto.
+  - apply IH, E.
+Qed.
+
+Lemma sub_refl s : sub s s.
+Proof. apply Forall2_refl. intro b. apply Forall2_refl. apply subw_refl. Qed.
+
+Lemma sub_trans a b c : sub a b -> sub b c -> sub a c.
+Proof. apply Forall2_trans. apply Forall2_trans. apply subw_trans. Qed.
+
+Lemma block_check_gen_mono ms : forall b b', Forall2 subw b b' ->
+  forallb (fun wm => word_has (fst wm) (snd wm)) (combine b ms) = true ->
+  forallb (fun wm => word_has (fst wm) (snd wm)) (combine b' ms) = true.
+Proof.
+  induction ms as [|m ms IH]; intros b b' H; destruct H as [|w w' b b' Hw Hb]; cbn [combine forallb fst snd]; try tauto.
+  rewrite !andb_true_iff. intros [H1 H2]. split; [eapply word_has_mono; eassumption|eapply IH; eassumption].
+Qed.
+
+Lemma check_at_mono s s' i x : sub s s' -> check_at s i x = true -> check_at s' i x = true.
+Proof.
+  intros H. unfold check_at. destruct (nth_error s (N.to_nat i)) as [b|] eqn:E; [|discriminate].
+  destruct (Forall2_nth _ _ _ _ _ H E) as (b' & E' & Hb). rewrite E'.
+  apply block_check_gen_mono, Hb.
+Qed.
+
+Lemma map2_lor_sub ms : forall b, length b = length ms -> Forall2 subw b (map2 N.lor b ms).
+Proof.
+  induction ms as [|m ms IH]; intros [|w b] H; cbn [length] in H; try lia; cbn [map2]; constructor.
+  - apply subw_lor_l.
+  - apply IH. lia.
+Qed.
+
+Lemma update_Forall2 {A} (P : A -> A -> Prop) l i f :
+  (forall x, P x x) -> (forall x, nth_error l i = Some x -> P x (f x)) -> Forall2 P l (update l i f).
+Proof.
+  intros Hr. revert i. induction l as [|y l IH]; intros [|i] H; cbn [update]; constructor;
+    try apply Hr; try (apply Forall2_refl, Hr).
+  - apply H. reflexivity.
+  - apply IH. intros x E. apply H. exact E.
+Qed.
+
+Lemma sub_insert_at s i x : wf s -> sub s (insert_at s i x).
+Proof.
+  intros Hwf. unfold insert_at, sub. apply update_Forall2.
+  - intro b. apply Forall2_refl, subw_refl.
+  - intros b E. apply map2_lor_sub. rewrite mask_length.
+    apply (Forall_nth_error _ _ _ _ Hwf E).
+Qed.
+
+Lemma block_check_after_insert ms : forall b, length b = length ms ->
+  forallb (fun wm => word_has (fst wm) (snd wm)) (combine (map2 N.lor b ms) ms) = true.
+Proof.
+  induction ms as [|m ms IH]; intros [|w b] H; cbn [length] in H; try lia; [reflexivity|].
+  cbn [map2 combine forallb fst snd]. rewrite IH by lia. rewrite andb_true_r.
+  apply word_has_subw, subw_lor_r.
+Qed.
+
+Lemma check_after_insert s i x : wf s -> i < nblocks s -> check_at (insert_at s i x) i x = true.
+Proof.
+  intros Hwf Hi. unfold nblocks in Hi.
+  destruct (nth_error_lt s (N.to_nat i)) as [b E]; [lia|].
+  unfold check_at, insert_at. rewrite (update_nth_same _ _ _ _ E).
+  apply block_check_after_insert. rewrite mask_length. apply (Forall_nth_error _ _ _ _ Hwf E).
+Qed.
+
+(* ------------------------------------------------------------------ union *)
+
+Lemma union_length a : forall b, length a = length b -> length (union a b) = length a.
+Proof. intros b. apply map2_length. Qed.
+
+Lemma map2_lor_w32 a : forall b, Forall w32 a -> Forall w32 b -> Forall w32 (map2 N.lor a b).
+Proof.
+  induction a as [|x a IH]; intros [|y b] Ha Hb; cbn [map2]; try constructor;
+    inversion Ha; inversion Hb; subst; [apply lor_lt_pow2; assumption|apply IH; assumption].
+Qed.
+
+Lemma union_wf a : forall b, wf a -> wf b -> wf (union a b).
+Proof.
+  induction a as [|x a IH]; intros [|y b] Ha Hb; cbn [union map2]; try constructor;
+    inversion Ha as [|? ? [Lx Wx] Ha']; inversion Hb as [|? ? [Ly Wy] Hb']; subst.
+  - split; [rewrite map2_length; [exact Lx|congruence]|apply map2_lor_w32; assumption].
+  - apply IH; assumption.
+Qed.
+
+Lemma map2_lor_sub_r a : forall b, length a = length b -> Forall2 subw b (map2 N.lor a b).
+Proof.
+  induction a as [|x a IH]; intros [|y b] H; cbn [length] in H; try lia; cbn [map2]; constructor.
+  - apply subw_lor_r.
+  - apply IH. lia.
+Qed.
+
+Lemma sub_union_l a : forall b, wf a -> wf b -> length a = length b -> sub a (union a b).
+Proof.
+  induction a as [|x a IH]; intros [|y b] Ha Hb L; cbn [length] in L; try lia; cbn [union map2]; constructor;
+    inversion Ha as [|? ? [Lx Wx] Ha']; inversion Hb as [|? ? [Ly Wy] Hb']; subst.
+  - apply map2_lor_sub. congruence.
+  - apply IH; [assumption|assumption|lia].
+Qed.
+
+Lemma sub_union_r a : forall b, wf a -> wf b -> length a = length b -> sub b (union a b).
+Proof.
+  induction a as [|x a IH]; intros [|y b] Ha Hb L; cbn [length] in L; try lia; cbn [union map2]; constructor;
+    inversion Ha as [|? ? [Lx Wx] Ha']; inversion Hb as [|? ? [Ly Wy] Hb']; subst.
+  - apply map2_lor_sub_r. congruence.
+  - apply IH; [assumption|assumption|lia].
+Qed.
+
+(* ------------------------------------------------------------------ the empty filter *)
+
+Lemma empty_block_wf : wf_block empty_block.
+Proof. split; [reflexivity|]. repeat constructor. Qed.
+
+Lemma empty_wf k : wf (empty k).
+Proof. unfold wf, empty. induction k; cbn [repeat]; constructor; [apply empty_block_wf|assumption]. Qed.
+
+Lemma empty_length k : length (empty k) = k.
+Proof. apply repeat_length. Qed.
+
+Lemma word_has_0 key s : word_has 0 (mbit key s) = false.
+Proof. unfold word_has. rewrite N.land_0_l. apply N.eqb_neq. intro H. symmetry in H. revert H. apply mbit_nz. Qed.
+
+Lemma empty_block_check x : BloomSpec.block_check empty_block x = false.
+Proof.
+  unfold BloomSpec.block_check, empty_block. rewrite mask_mbit. unfold salt.
+  cbn [repeat map combine forallb fst snd]. rewrite word_has_0. reflexivity.
+Qed.
+
+Lemma empty_check_at k i x : check_at (empty k) i x = false.
+Proof.
+  unfold check_at. destruct (nth_error (empty k) (N.to_nat i)) as [b|] eqn:E; [|reflexivity].
+  apply nth_error_In, repeat_spec in E. subst b. apply empty_block_check.
+Qed.
+
+Lemma to_bytes_empty k : to_bytes (empty k) = repeat 0 (k * 32).
+Proof.
+  induction k as [|k IH]; [reflexivity|].
+  unfold empty in *. cbn [repeat]. rewrite to_bytes_wbytes in *. cbn [concat]. rewrite wbytes_app, IH.
+  change (wbytes empty_block) with (repeat 0 32). rewrite <- repeat_app. reflexivity.
+Qed.
+
+(* ------------------------------------------------------------------ creation and sizes *)
+
+Lemma create_spec n f : create n = Some f ->
+  n <= 2^64 - 32 /\ num_blocks f = blocks_for n /\ num_bytes f = 32 * blocks_for n /\
+  data f = repeat 0 (N.to_nat (num_bytes f)) /\ num_bytes f < 2^64.
+Proof.
+  unfold create, BLOCK_SIZE, SIZE_MAX, usz, blocks_for.
+  change Gen.Consts_gen.Bloom_BLOOM_FILTER_BLOCK_SIZE with 32.
+  change 18446744073709551616 with (2^64).
+  destruct (18446744073709551615 - (32 - 1) <? n) eqn:E; [discriminate|].
+  apply N.ltb_ge in E. change (18446744073709551615 - (32 - 1)) with (2^64 - 32) in E.
+  intros H. inversion H; subst; clear H. cbn [num_blocks num_bytes data].
+  assert (P : 2^64 = 18446744073709551616) by reflexivity.
+  destruct (n <? 32) eqn:E2; [apply N.ltb_lt in E2|apply N.ltb_ge in E2].
+  - change ((32 + 32 - 1) mod 2^64 / 32 * 32) with 64 at 1 2 3 4 5.
+    Fail idtac.
+Abort.
